@@ -6,7 +6,7 @@ ROOT = Path(__file__).resolve().parent.parent
 props = [json.loads(l) for l in open(ROOT / "properties.jsonl")]
 TB = ("Trusted: Lean 4.33 kernel (axioms propext, Classical.choice, Quot.sound only; audited per theorem on every run, leanchecker in the "
       "thorough tier); the translators tools/fpextract.py (constants/tables), tools/fpsites.py (token skeleton of every file the property's "
-      "operations execute, incl. called names and macro metavariables) and tools/fpkernels.py (expression-level translation of 159 functions "
+      "operations execute, incl. called names and macro metavariables) and tools/fpkernels.py (expression-level translation of 179 functions "
       "into Lean, each with a proved tie `Gen.K.f = Model.f`, vocabulary in lean/Fpdec/Gen/Rt.lean) — all re-run on /repo on every check; the "
       "correspondence run fpdrv (real crate) vs fpmodel (compiled Lean model) that ties the remaining hand-written model functions to the "
       "code; rustc/std semantics of the modelled items (DESIGN.md sections 2.2 and 3).")
@@ -28,10 +28,10 @@ D = {
  "C04": "checkedDivRounded_spec (all four scaling branches; the repaired divisor-scaled branch via specRound_two_step), div_rounded_spec + guarded integer shapes, mul_rounded_spec, four quantize theorems; the unguarded int/int shape is proved for n<=18 only (div_rounded_int_int_partial) with the Lean witness of the open known finding D8.",
  "C05": "kernel_spec (i128_div_rounded = Spec.specRoundQ for all 8 modes, all in-range n, d != 0), spec_table (the spec agrees with Python-decimal outcomes on the complete class grid), round_spec / checked_round_spec for every Decimal of the domain and every n : i8 including the far-negative shortcut.",
  "C06": "from_str_spec: for EVERY byte string shorter than 2^56 bytes Decimal::from_str agrees with the reference grammar parser (unbounded integers), value and digit count exact, Err otherwise, Empty only for the empty string, never a panic; SWAR lemmas proved without bv_decide; saturating accumulation; exponent saturation never changes the verdict.",
- "C07": "string_from_spec / to_string_spec / debug_spec (one canonical text Spec.render), render_parses_back, roundtrip (from_str(to_string(d)) = Ok(d) with identical coefficient and digit count, via C06); serde-as-str glue only exercised (feature build in the correspondence run).",
- "C08": "partial_cmp_spec / cmp_spec / eq_spec and the integer shapes: comparison of the exact values also when scale alignment overflows; value_order_refl/antisymm/trans/eq_iff; rkyv archive/validate/deserialize only exercised (feature builds rkyv and rkyv,packed).",
- "C09": "gcd_special_spec (Stein loop terminates within its fuel and returns gcd(|n|,10^e)), as_integer_ratio_spec, ratio_is_reduced (d>0, coprime, same value), ratio_of_equal_values, hash_of_equal_values (equal values feed the same words to any Hasher).",
- "C10": "rem_core_spec (all scale cases incl. the digit loop), rem_spec / checked_rem_spec / integer shapes, tmod_is_the_remainder (uniqueness of the truncated remainder); the overflow signal is allowed exactly where the statement allows it.",
+ "C07": "string_from_spec / to_string_spec / debug_spec (one canonical text Spec.render), render_parses_back, roundtrip (from_str(to_string(d)) = Ok(d) with identical coefficient and digit count, via C06); serde_glue + serde_roundtrip: the serde-as-str attributes of struct Decimal are re-extracted (derive with into/try_from String, no hand-written impl) and the translated try_from(String::from(d)) is Ok(d); serde's own code only exercised (feature build in the correspondence run).",
+ "C08": "partial_cmp_spec / cmp_spec / eq_spec and the integer shapes: comparison of the exact values also when scale alignment overflows; value_order_refl/antisymm/trans/eq_iff; rkyv_roundtrip / rkyv_eq_spec / rkyv_cmp_spec / rkyv_mixed_spec / rkyv_ord_never_panics / rkyv_layout: the translated ArchivedDecimal impls (==, partial_cmp, Ord, mixed forms, Archive::resolve and Deserialize of the packed layout) make archive∘deserialise the identity and compare by exact value; rkyv's own code (derive, check_bytes) only exercised (feature builds rkyv and rkyv,packed).",
+ "C09": "gcd_special_spec (Stein loop terminates within its fuel and returns gcd(|n|,10^e)), as_integer_ratio_spec, ratio_is_reduced (d>0, coprime, same value), ratio_of_equal_values, hash_of_equal_values (equal values feed the same words to any Hasher), kernel_hash_spec (the same for the translated impl Hash; the exact Hasher call sequence is also an observable of the correspondence run).",
+ "C10": "rem_core_spec (all scale cases incl. the digit loop), rem_spec / checked_rem_spec / integer shapes, tmod_is_the_remainder (uniqueness of the truncated remainder); the overflow signal is allowed exactly where the statement allows it; integer operands range over the whole i128 range in both positions (rem_min_by_minus_one: the repaired D14).",
  "C11": "display_spec: for every flag/width/precision combination, every mode and profile, Display equals Spec.displaySpec (canonical text of d rounded to min(P,18) digits, zero-extended, sign from d, std padding); Formatter::pad_integral is a transcription shared by model and spec (assumed, exercised).",
  "C12": "into_float_spec (the model of f64::from / f32::from returns exactly Spec.intoFloat for every Decimal of the domain) and rne_is_nearest (that pattern is the nearest float among all bit patterns, even significand on ties); i128 as fN is assumed round-to-nearest-even.",
  "C13": "try_from_float_spec: for EVERY bit pattern of f64/f32 and every build profile Decimal::try_from returns InfiniteValue / NotANumber for the non-finite patterns, else the exact rational value of the pattern rounded half-even to 18 fractional digits with trailing zeros removed, or InternalOverflow when that coefficient exceeds i128 (at exactly -2^127: either); try_from_float_total (never panics); heven_nearest + normalizeSpec_value + from_float_nearest (the returned Decimal is within half a unit of the 18th digit of the exact value, the even one on a tie, no trailing fractional zero); from_float_integral (integral floats convert exactly).",
@@ -69,7 +69,7 @@ m = {
                  "kind_free_text": "Lean 4 executable model + spec + theorems; Rust line-protocol harness; Python orchestrator"}],
     "checks": checks,
     "not_applicable": [],
-    "notes": "14 genuine defects were repaired in /repo as separate `fix:` commits (known_findings.json, DESIGN.md section 4); one open known finding (D8 int/int).",
+    "notes": "15 genuine defects were repaired in /repo as separate `fix:` commits (known_findings.json, DESIGN.md section 4); one open known finding (D8 int/int).",
 }
 json.dump(m, open(ROOT / "MANIFEST.json", "w"), indent=1)
 print("MANIFEST.json written:", len(checks), "checks")
